@@ -96,8 +96,21 @@ def run_case(args):
         try:
             mod.updater = U.Updater()
             t0 = time.time()
-            res = runner.invoke(cli, argv)
+            box = {}
+
+            def call():
+                box["res"] = runner.invoke(cli, argv)
+
+            th = threading.Thread(target=call, daemon=True)      # watchdog: a command that never returns is a finding, not a hang of the check
+            th.start()
+            th.join(8)
             elapsed = time.time() - t0
+            if "res" not in box:
+                release.set()
+                return {"tid": "upd-%d" % k, "i": 0, "group": group, "server": server, "version": VERSION_CLASS.get(version, version), "version_text": str(VERSIONS.get(version)),
+                        "timing": timing if server != "hang" else "never", "cmd": cmd, "exit": -9, "ref_exit": ref.exit_code, "stdout_same": False, "notice": False,
+                        "notice_last": True, "notice_count": 0, "elapsed_ms": int(elapsed * 1000), "ref_ms": 0, "op": {"op": cmd}, "exc": "command did not return within 8 s"}
+            res = box["res"]
         finally:
             requests.get = orig_get
         out = res.stdout
@@ -128,9 +141,12 @@ def fake_get(url, *a, **kw):
     return R()
 requests.get = fake_get
 sys.path.insert(0, sys.argv[2])
-from ascmhl.cli.ascmhl import mhltool_cli
-sys.argv = ["ascmhl"] + sys.argv[3:]
-mhltool_cli()
+if sys.argv[3] == "debug":
+    from ascmhl.cli.ascmhl_debug import mhldebugtool_cli as cli
+else:
+    from ascmhl.cli.ascmhl import mhltool_cli as cli
+sys.argv = ["ascmhl"] + sys.argv[4:]
+cli()
 """
 
 
@@ -141,6 +157,7 @@ def subprocess_case(args):
     import sys
 
     k, mode = args
+    group = "debug" if k % 2 else "main"
     wd = tempfile.mkdtemp(prefix="mhl-verif-updp-", dir=os.environ.get("VERIF_SCRATCH", "/dev/shm"))
     try:
         root = os.path.join(wd, "vol")
@@ -148,17 +165,20 @@ def subprocess_case(args):
         with open(os.path.join(root, "a.mov"), "wb") as fh:
             fh.write(b"content")
         CliRunner().invoke(C.create, [root, "-h", "md5"])
-        ref = CliRunner(mix_stderr=False).invoke(C.info, [root])
+        ref = CliRunner(mix_stderr=False).invoke(C.verify if group == "debug" else C.info, [root])
         drv = os.path.join(wd, "driver.py")
         with open(drv, "w") as fh:
             fh.write(SUBPROCESS_DRIVER)
         t0 = time.time()
-        p = subprocess.run([sys.executable, drv, mode, W.REPO, "info", root], stdout=subprocess.PIPE, stderr=subprocess.PIPE, timeout=60)
+        try:
+            p = subprocess.run([sys.executable, drv, mode, W.REPO, group, "verify" if group == "debug" else "info", root], stdout=subprocess.PIPE, stderr=subprocess.PIPE, timeout=12)
+        except subprocess.TimeoutExpired as te:
+            p = subprocess.CompletedProcess([], -9, te.stdout or b"", te.stderr or b"")
         elapsed = time.time() - t0
         out = p.stdout.decode()
         has_notice = NOTICE in out
         stripped = out.replace(NOTICE + "\n", "") if has_notice else out
-        return {"tid": "updp-%d" % k, "i": 0, "group": "ascmhl (subprocess)", "server": "hang" if mode == "hang" else "ok", "version": "newer",
+        return {"tid": "updp-%d" % k, "i": 0, "group": "ascmhl-debug (subprocess)" if group == "debug" else "ascmhl (subprocess)", "server": "hang" if mode == "hang" else "ok", "version": "newer",
                 "timing": "never" if mode == "hang" else ("before" if float(mode) < 0.2 else "after_timeout"), "cmd": "ok",
                 "exit": p.returncode, "ref_exit": ref.exit_code, "stdout_same": stripped == ref.stdout, "notice": has_notice,
                 "notice_last": (not has_notice) or out.endswith(NOTICE + "\n"), "notice_count": out.count(NOTICE),
